@@ -89,6 +89,7 @@ def ext_value_ok(I, st, base, expr, cls, nib_aff, at):
 
 
 def check(env, rep, tier):
+    include(rep, env, tier, "c01", ("C01.4", "C01.6"), "C02.3", "'re-serialising reproduces the input': the encoder emits the RFC option headers and the payload behind its marker")
     configs = ["default"] if tier == "quick" else ["default", "nodefault", "udp"]
     rep.configs = configs
     for cfg in configs:
